@@ -7,6 +7,7 @@ use hpo::{HpoError, Ontology};
 #[derive(Clone, Debug)]
 pub enum World {
     Builder(Script),
+    Bytes(Vec<u8>),
 }
 
 pub struct Built {
@@ -18,12 +19,14 @@ impl World {
     pub fn to_v(&self) -> V {
         match self {
             World::Builder(s) => V::C("WBuilder", vec![s.to_v()]),
+            World::Bytes(b) => V::C("WBytes", vec![crate::v::bytes(b)]),
         }
     }
     /// None = a call panicked
     pub fn build(&self) -> Option<Built> {
         match self {
             World::Builder(s) => build::run(s).map(|(codes, result)| Built { codes, result }),
+            World::Bytes(b) => crate::catch(std::panic::AssertUnwindSafe(|| Ontology::from_bytes(b))).map(|result| Built { codes: vec![], result }),
         }
     }
 }
@@ -53,6 +56,39 @@ pub fn on_onto<F: FnOnce(&Ontology) -> V + std::panic::UnwindSafe>(b: &Option<Bu
                 Some(v) => V::C("Ok", vec![v]),
                 None => V::C("Panic", vec![]),
             }
+        }
+    }
+}
+
+use crate::gen::{self, Facts, Opts};
+use crate::rng::Rng;
+
+/// a world for a random fact set: the Builder API (random call order) or a binary file of
+/// layout v1 / v2 / v3 (random record order).  Returns the facts the world can carry.
+pub fn gen_world(rng: &mut Rng, mut o: Opts, tags: &mut Vec<&'static str>) -> (World, Facts) {
+    match rng.below(5) {
+        0 | 1 => {
+            o.flags = false;
+            let f = gen::gen_facts(rng, o);
+            let kindb = if f.has(1) && f.has(118) { rng.below(2) as u8 } else { 0 };
+            tags.push("builder");
+            (World::Builder(build::script_from_facts(rng, &f, kindb)), f)
+        }
+        k => {
+            o.flags = true;
+            if rng.chance(7, 8) {
+                o.roots_eighths = 8;
+                o.min_terms = o.min_terms.max(2);
+            }
+            let f = gen::gen_facts(rng, o);
+            let version = (k - 1) as u8; // 1, 2, 3
+            tags.push(match version {
+                1 => "bin_v1",
+                2 => "bin_v2",
+                _ => "bin_v3",
+            });
+            let fr = crate::bin::restrict(&f, version);
+            (World::Bytes(crate::bin::encode(&fr, version, rng)), fr)
         }
     }
 }
